@@ -238,6 +238,7 @@ class Canon:
             self.split_tuple_lets(body)
             self.beta_reduce(body)
             self.beta_reduce_blocks(body)
+            self.after_beta(body)
             self.assign_forms(body)
             self.match_ints(body)
             self.match_bools(body)
@@ -250,6 +251,7 @@ class Canon:
             self.slice_aliases(body)
             self.fill_calls(body)
             self.for_each_loops(body)
+            self.for_map_loops(body)
             self.slice_aliases(body)         # an alias that was captured by a `for_each` closure is a plain alias now
             self.demote_accumulators(body)
             self.fold_tuple_loops(body)
@@ -1327,6 +1329,22 @@ class Canon:
             if any(s_.get("canon_dead") for s_ in blk.get("stmts", [])):
                 blk["stmts"] = [s_ for s_ in blk["stmts"] if not s_.get("canon_dead")]
 
+    def after_beta(self, body):
+        """After closures were applied away: a capture list names only variables the closure body still mentions, and a block ending in
+        `let x = E; x` (x immutable, used there only) ends in E."""
+        for blk in [n for n in _walk(body) if n.get("k") == "Block" and n.get("stmts") and isinstance(n.get("expr"), dict)]:
+            last, t = blk["stmts"][-1], _strip(blk["expr"])
+            if last.get("k") == "Let" and (last.get("pat") or {}).get("k") == "Bind" and not last["pat"].get("mut") and not last["pat"].get("byref") and last.get("init") is not None and \
+                    t.get("k") == "Local" and t.get("v") == last["pat"]["v"] and str(last["pat"].get("name", "")).startswith("__applied") and \
+                    len([x for x in _walk(body) if x.get("k") == "Local" and x.get("v") == t["v"]]) == 1:
+                blk["stmts"] = blk["stmts"][:-1]
+                blk["expr"] = last["init"]
+        for c in [n for n in _walk(body) if n.get("k") == "Closure" and n.get("captures")]:
+            mentioned = {x.get("v") for x in _walk(c["body"]) if x.get("k") == "Local"}
+            kept = [cp for cp in c["captures"] if cp.get("v") in mentioned or cp.get("v") is None]
+            if len(kept) != len(c["captures"]):
+                c["captures"] = kept
+
     def beta_reduce_blocks(self, body):
         """`let step = |x: &mut M, c: usize| { stmts };  ..  step(&mut m, j);`  ->  the statements at the call, parameters replaced by the
         arguments (locals, literals, `&`/`&mut` of a local), the closure's own locals renamed apart.  Only closures that are not
@@ -1342,6 +1360,28 @@ class Canon:
                         cands[n["pat"]["v"]] = (n, c)
         if not cands:
             return
+        # a valued block closure applied in tail position (`move || partial(a, b)`, `{ ..; partial(a, b) }`): name the value first, so that
+        # the application is a `let` like any other
+        def _is_cand_call(e_):
+            e0 = _strip(e_) if isinstance(e_, dict) else {}
+            f0 = _strip(e0["f"]) if e0.get("k") == "Call" and isinstance(e0.get("f"), dict) else {}
+            return f0.get("k") == "Local" and f0.get("v") in cands and str(cands[f0["v"]][1]["body"].get("ty")) not in ("()", "None")
+        for n in list(_walk(body)):
+            slot = "body" if n.get("k") == "Closure" else ("expr" if n.get("k") == "Block" and not n.get("m") else None)
+            if slot is None or not isinstance(n.get(slot), dict) or not _is_cand_call(n[slot]):
+                continue
+            call = n[slot]
+            self.fresh += 1
+            v = self.fresh
+            sp = list(call.get("sp") or [0, 0, 0, 0])
+            ty = _strip(call).get("ty")
+            let = {"k": "Let", "pat": {"k": "Bind", "v": v, "name": "__applied%d" % v, "mut": False, "byref": False, "ty": ty}, "init": call, "sp": list(sp)}
+            loc_ = {"k": "Local", "v": v, "name": "__applied%d" % v, "id": self._id(), "ty": ty, "sp": [sp[2], sp[3] + 0.001, sp[2], sp[3] + 0.002]}
+            if slot == "body":
+                n["body"] = {"k": "Block", "stmts": [let], "expr": loc_, "id": self._id(), "ty": ty, "sp": list(sp)}
+            else:
+                n["stmts"] = list(n.get("stmts", [])) + [let]
+                n["expr"] = loc_
         uses = {v: 0 for v in cands}
         calls = {v: 0 for v in cands}
         for n in _walk(body):
@@ -2287,6 +2327,30 @@ class Canon:
                         break
                 if again:
                     break
+
+    def for_map_loops(self, body):
+        """`for p in X.map(|t| E) { body }`  ->  `for t in X { let p = E; body }` (also through `.into_iter()` of X): `map` is lazy, E is
+        evaluated once per element, in order, immediately before the body runs for it."""
+        for lp in [n for n in _walk(body) if n.get("k") == "For"]:
+            it = _strip(lp.get("iter") or {})
+            if it.get("k") != "MethodCall" or it.get("name") != "map" or len(it.get("args", [])) != 1 or not str(it.get("fn", "")).startswith("std::iter::Iterator::map"):
+                continue
+            cl = _strip(it["args"][0])
+            if cl.get("k") != "Closure" or len(cl.get("params", [])) != 1 or cl["params"][0].get("k") != "Bind" or cl["params"][0].get("byref"):
+                continue
+            if any(x.get("k") in ("Ret", "Try", "Break", "Continue") for x in _walk(cl["body"])) or lp["body"].get("k") != "Block":
+                continue
+            src = it["recv"]
+            s0 = _strip(src)
+            if s0.get("k") == "MethodCall" and s0.get("name") == "into_iter" and not s0.get("args"):
+                src = s0["recv"]
+            sp = list(lp.get("sp") or [0, 0, 0, 0])
+            bsp = list(lp["body"].get("sp") or sp)
+            let = {"k": "Let", "pat": lp["pat"], "init": cl["body"], "sp": [bsp[0], bsp[1] + 0.0001, bsp[0], bsp[1] + 0.0002]}
+            lp["pat"] = cl["params"][0]
+            lp["iter"] = src
+            lp["body"]["stmts"] = [let] + list(lp["body"].get("stmts", []))
+            self.stats["for_map_loops"] = self.stats.get("for_map_loops", 0) + 1
 
     def struct_pattern_lets(self, body):
         """`let S { a, b: c } = P;` (P a local / parameter, every field pattern a plain binding)  ->  `let a = P.a; let c = P.b;` when P is a
